@@ -207,6 +207,7 @@ type sqlRun struct {
 	conflict bool // the next statement runs against rows another open transaction has locked
 	deadEmitted bool
 	aborted bool // the explicit transaction was aborted by one of its statements
+	down    bool // the database is stopped (between a stop and the next reopen of a walk)
 }
 
 func (s *sqlRun) emit(ev map[string]interface{}) {
